@@ -105,11 +105,12 @@ def crash_round(work, name, seed, nops, typical):
         p2.wait(timeout=300)
         status = open(st2).read().strip() if os.path.exists(st2) else "NOSTATUS rc=%s" % p2.returncode
         if status.startswith("OPENFAIL"):
-            return lines + [{"op": "CannotReopen", "a": {"inflight": inflight}, "r": {"ok": False, "err": status, "val": []}, "now": 0, "st": done[-1]["st"], "bad": status}], {"mode": mode, "openfail": status}
+            return lines + [{"op": "CannotReopen", "a": {"inflight": inflight}, "r": {"ok": False, "err": status, "val": []}, "now": 0, "st": done[-1]["st"], "bad": status, "badamt": ""}], {"mode": mode, "openfail": status}
         if status != "OK":
             raise C.Machinery("crashobserve failed: %s" % status)
         crash = json.loads(open(obs).read().splitlines()[0])
         crash["a"] = {"inflight": inflight}
+        crash.setdefault("badamt", "")
         lines.append(crash)
         # carry on after the restart
         if last_k + 1 < len(ops):
